@@ -1,5 +1,5 @@
 // Driver for C16: real `blackdagger start` / `retry` processes on one marker-file DAG, each under
-// `strace -f -ttt -e trace=connect,bind,unlinkat` (optionally with a syscall delay injected to widen a window),
+// `strace -f -ttt -T -e trace=execve,connect,bind,unlinkat` (optionally with a syscall delay injected to widen a window),
 // launched at chosen phases of the first run's life.  Per scenario it records, for every process: exit code, the
 // kind of refusal, the times of its socket system calls (probe = connect, unlink before bind, bind, shutdown unlink,
 // late unlink - effective times, i.e. entry + injected delay), its marker lines (which steps it executed, when), the
@@ -40,6 +40,7 @@ import (
 type Anchor struct {
 	Act     string  `json:"act"` // probe | unlink | bind | shutunlink | lateunlink
 	T       float64 `json:"t"`   // effective time (epoch seconds): entry + injected delay
+	Dur     float64 `json:"dur"` // time from entry to exit of the call as strace saw it (-T), minus the injected delay
 	Ok      bool    `json:"ok"`  // the system call succeeded (probe: connected)
 	Delayed bool    `json:"delayed"`
 }
@@ -62,7 +63,7 @@ type Proc struct {
 	Out      string   `json:"out"`
 	Anchors  []Anchor `json:"anchors"`
 	Markers  []Marker `json:"markers"`
-	HistNew  int      `json:"hist_new"` // history files that appeared between its launch and its exit (sequential launches only)
+	HistNew  int      `json:"hist_new"` // runs that appeared in the history directory between its launch and its exit (launches the driver waited for)
 	cmd      *exec.Cmd
 	done     chan struct{}
 	straceF  string
@@ -70,7 +71,8 @@ type Proc struct {
 }
 
 type Probe struct {
-	T        float64 `json:"t"`
+	T        float64 `json:"t"`  // just before dialing
+	T2       float64 `json:"t2"` // after the answer (or the failure)
 	Label    string  `json:"label"`
 	Answered bool    `json:"answered"`
 	Status   string  `json:"status"`
@@ -163,7 +165,7 @@ func (s *Scenario) launch(kind, inject, reqid string) *Proc {
 	p.straceF = filepath.Join(s.dir, fmt.Sprintf("strace-%d.txt", i))
 	s.Procs = append(s.Procs, p)
 	s.mu.Unlock()
-	args := []string{"-f", "-ttt", "-e", "trace=connect,bind,unlinkat", "-o", p.straceF}
+	args := []string{"-f", "-ttt", "-T", "-e", "trace=execve,connect,bind,unlinkat", "-o", p.straceF}
 	if inject != "" {
 		args = append(args, "-e", "inject="+inject)
 	}
@@ -188,7 +190,7 @@ func (s *Scenario) launch(kind, inject, reqid string) *Proc {
 		return p
 	}
 	// the traced blackdagger process is the only child of strace
-	for k := 0; k < 400 && p.Pid == 0; k++ {
+	for k := 0; k < 3000 && p.Pid == 0; k++ {
 		p.Pid = childOf(cmd.Process.Pid)
 		if p.Pid == 0 {
 			time.Sleep(time.Millisecond)
@@ -209,13 +211,12 @@ func (s *Scenario) launch(kind, inject, reqid string) *Proc {
 	return p
 }
 
-// childOf finds the (first) process whose parent is ppid by scanning /proc
+// childOf finds the traced program among the children of strace (strace forks short-lived helpers of its own
+// at start-up, so the child is recognised by its command name) by scanning /proc
 func childOf(ppid int) int {
-	if b, err := os.ReadFile(fmt.Sprintf("/proc/%d/task/%d/children", ppid, ppid)); err == nil {
-		if f := strings.Fields(string(b)); len(f) > 0 {
-			n, _ := strconv.Atoi(f[0])
-			return n
-		}
+	want := filepath.Base(binPath)
+	if len(want) > 15 {
+		want = want[:15]
 	}
 	ents, _ := os.ReadDir("/proc")
 	for _, e := range ents {
@@ -229,12 +230,14 @@ func childOf(ppid int) int {
 		}
 		// pid (comm) state ppid ...
 		st := string(b)
-		if i := strings.LastIndex(st, ")"); i > 0 {
-			f := strings.Fields(st[i+1:])
-			if len(f) >= 2 {
-				if pp, _ := strconv.Atoi(f[1]); pp == ppid {
-					return pid
-				}
+		i, j := strings.Index(st, "("), strings.LastIndex(st, ")")
+		if i < 0 || j < i {
+			continue
+		}
+		f := strings.Fields(st[j+1:])
+		if len(f) >= 2 && st[i+1:j] == want {
+			if pp, _ := strconv.Atoi(f[1]); pp == ppid {
+				return pid
 			}
 		}
 	}
@@ -256,11 +259,24 @@ func (p *Proc) wait(d time.Duration) bool {
 
 // launch and wait, counting the history files that appear meanwhile
 func (s *Scenario) launchWait(kind, inject, reqid string) *Proc {
-	before := len(s.histFiles())
+	before := s.histIDs()
 	p := s.launch(kind, inject, reqid)
 	p.wait(30 * time.Second)
-	p.HistNew = len(s.histFiles()) - before
+	for id := range s.histIDs() {
+		if !before[id] {
+			p.HistNew++
+		}
+	}
 	return p
+}
+
+// run identities present in the history directory (file names without the compaction suffix)
+func (s *Scenario) histIDs() map[string]bool {
+	out := map[string]bool{}
+	for _, f := range s.histFiles() {
+		out[strings.TrimSuffix(strings.TrimSuffix(f, ".dat"), "_c")] = true
+	}
+	return out
 }
 
 func (s *Scenario) probe(label string) Probe {
@@ -292,6 +308,7 @@ func (s *Scenario) probe(label string) Probe {
 			}
 		}
 	}
+	pr.T2 = now()
 	s.mu.Lock()
 	s.Probes = append(s.Probes, pr)
 	s.mu.Unlock()
@@ -325,6 +342,7 @@ func (s *Scenario) markerHas(step, tag string) bool {
 
 func sockExists(p string) bool { _, err := os.Lstat(p); return err == nil }
 
+var durRe = regexp.MustCompile(`<(\d+\.\d+)>\s*$`)
 var lineRe = regexp.MustCompile(`^(\d+)\s+(\d+\.\d+)\s+(connect|bind|unlinkat)\((.*)$`)
 
 // parse the socket system calls of one process out of its strace log
@@ -352,31 +370,48 @@ func (s *Scenario) anchors(p *Proc, delayUs int) {
 		}
 		ok := strings.Contains(rest, " = 0")
 		delayed := strings.Contains(rest, "(DELAYED)")
+		dur := 0.0
+		if m := durRe.FindStringSubmatch(rest); m != nil {
+			dur, _ = strconv.ParseFloat(m[1], 64)
+		}
 		if delayed {
 			t += float64(delayUs) / 1e6
+			dur -= float64(delayUs) / 1e6
+		}
+		if dur < 0 {
+			dur = 0
 		}
 		switch call {
 		case "connect":
-			p.Anchors = append(p.Anchors, Anchor{"probe", t, ok, delayed})
+			p.Anchors = append(p.Anchors, Anchor{"probe", t, dur, ok, delayed})
 		case "bind":
-			p.Anchors = append(p.Anchors, Anchor{"bind", t, ok, delayed})
+			p.Anchors = append(p.Anchors, Anchor{"bind", t, dur, ok, delayed})
 			bound = ok
 		case "unlinkat":
 			switch {
 			case !seenFirstUnlink && !bound:
 				seenFirstUnlink = true
-				p.Anchors = append(p.Anchors, Anchor{"unlink", t, ok, delayed})
+				p.Anchors = append(p.Anchors, Anchor{"unlink", t, dur, ok, delayed})
 			case bound && nUnlinkAfter == 0:
 				nUnlinkAfter++
-				p.Anchors = append(p.Anchors, Anchor{"shutunlink", t, ok, delayed})
+				p.Anchors = append(p.Anchors, Anchor{"shutunlink", t, dur, ok, delayed})
 			case bound && nUnlinkAfter == 1:
 				nUnlinkAfter++
-				p.Anchors = append(p.Anchors, Anchor{"lateunlink", t, ok, delayed})
+				p.Anchors = append(p.Anchors, Anchor{"lateunlink", t, dur, ok, delayed})
 			}
 		}
 	}
+	first := true
 	for sc.Scan() {
 		line := sc.Text()
+		if first { // the first traced call is the execve of the program itself, by the process whose pid we want
+			first = false
+			if f := strings.Fields(line); len(f) > 2 && strings.HasPrefix(f[2], "execve(") {
+				if n, err := strconv.Atoi(f[0]); err == nil {
+					p.Pid = n
+				}
+			}
+		}
 		// "<pid> <t> call(args <unfinished ...>" / "<pid> <t> <... call resumed>rest"
 		if m := lineRe.FindStringSubmatch(line); m != nil {
 			t, _ := strconv.ParseFloat(m[2], 64)
@@ -471,6 +506,7 @@ func (s *Scenario) finish(delayUs int) {
 	})
 	s.SockLeft = sockExists(s.Sock)
 	_ = os.Remove(s.Sock)
+	_ = os.Remove(s.Sock + ".lock")
 	if s.Probes == nil {
 		s.Probes = []Probe{}
 	}
